@@ -82,6 +82,50 @@ Theorem C13_full_stack_all_messages_exact : forall (m : msg) (mav : bool) (d : d
   (dev_message d mav (render_msg m) = Val (op_message d mav us) <-> stray_separator m = false).
 Proof. exact contrib_refines_ops_all_iff. Qed.
 
+From VF Require Import Gen_Esr ErrTable Lexer Tree Tree_invariant Contrib_anybytes.
+
+(* ANY byte string (well-formed or not) sent to the mandated tree: the handlers only perform quiet steps (pop, clear, operation-complete, register writes); a failed message then appends exactly its error LAST and sets its class bit; a successful one queues no error and raises no error bit (Contrib_anybytes.v, by the generic lifting theorem Tree_invariant.run_lifts) *)
+Theorem C13_dev_message_any_bytes : forall d mav bytes d' out r,
+  dev_message d mav bytes = Val (d', out, r) ->
+  exists dh, quiet_step d dh /\
+    match r with
+    | None => d' = dh
+    | Some e => d' = push_error dh e
+    end.
+Proof. exact dev_message_any_bytes. Qed.
+Theorem C13_any_failed_message_queues_its_error_last : forall d mav bytes d' out e,
+  dev_message d mav bytes = Val (d', out, Some e) ->
+  exists q, queue d' = q ++ [e] /\ (forall x, In x q -> In x (queue d) \/ x = std_error OperationComplete)
+  /\ N.land (esr d') (error_esr_mask e) = error_esr_mask e
+  /\ (forall i, N.testbit err_bits i = true -> N.testbit (esr d') i = true ->
+        N.testbit (esr d) i = true \/ N.testbit (error_esr_mask e) i = true).
+Proof. exact any_failed_message_queues_its_error_last. Qed.
+Theorem C13_any_failed_message_exact : forall d mav bytes d' out e,
+  dev_message d mav bytes = Val (d', out, Some e) ->
+  exists n k dh,
+    queue d' = skipn n (queue d) ++ repeat (std_error OperationComplete) k ++ [e]
+    /\ esr d' = N.lor (esr dh) (error_esr_mask e)
+    /\ (forall i, N.testbit (esr dh) i = true -> N.testbit (esr d) i = true \/ i = 0)
+    /\ tst_result d' = tst_result d
+    /\ ese d' = ese dh /\ sre d' = sre dh /\ oper d' = oper dh /\ ques d' = ques dh.
+Proof. exact any_failed_message_exact. Qed.
+Theorem C13_any_successful_message_queues_no_error : forall d mav bytes d' out,
+  dev_message d mav bytes = Val (d', out, None) ->
+  (forall x, In x (queue d') -> In x (queue d) \/ x = std_error OperationComplete)
+  /\ (forall i, N.testbit err_bits i = true -> N.testbit (esr d') i = true -> N.testbit (esr d) i = true).
+Proof. exact any_successful_message_queues_no_error. Qed.
+Theorem C13_any_successful_message_exact : forall d mav bytes d' out,
+  dev_message d mav bytes = Val (d', out, None) ->
+  (exists n k, queue d' = skipn n (queue d) ++ repeat (std_error OperationComplete) k)
+  /\ (forall i, N.testbit (esr d') i = true -> N.testbit (esr d) i = true \/ i = 0)
+  /\ tst_result d' = tst_result d.
+Proof. exact any_successful_message_exact. Qed.
+Theorem C13_dev_message_total : forall d mav bytes, exists r, dev_message d mav bytes = Val r.
+Proof. exact dev_message_total. Qed.
+Theorem C13_queue_evolves_shape : forall q q',
+  queue_evolves q q' <-> exists n k, q' = skipn n q ++ repeat opc_event k.
+Proof. exact queue_evolves_shape. Qed.
+
 Print Assumptions C13_fail_queues_once.
 Print Assumptions C13_ok_queues_nothing.
 Print Assumptions C13_syst_err_next.
@@ -92,3 +136,10 @@ Print Assumptions C13_full_stack_refines.
 Print Assumptions C13_full_stack_refines_iff.
 Print Assumptions C13_full_stack_all_messages.
 Print Assumptions C13_full_stack_all_messages_exact.
+Print Assumptions C13_dev_message_any_bytes.
+Print Assumptions C13_any_failed_message_queues_its_error_last.
+Print Assumptions C13_any_failed_message_exact.
+Print Assumptions C13_any_successful_message_queues_no_error.
+Print Assumptions C13_any_successful_message_exact.
+Print Assumptions C13_dev_message_total.
+Print Assumptions C13_queue_evolves_shape.
